@@ -25,7 +25,8 @@ EXTRA = {
         "is observed per case, not modelled; the theorems quantify over every such call; for the operations the "
         "statement names (STATEMENT_OPS) a call with a method pdtable does not know is an alarm",
         "dropna / dropna(subset=) are refused by pdtable today (pandas' internal isna() frame is validated against "
-        "the kept units): open finding F4, keys row_selection_refused:dropna / :dropna_subset",
+        "the kept units): open finding F4, keys row_selection_refused:dropna / :dropna_subset; they run in every "
+        "case stream and are judged like any safe operation",
         "operations whose result pandas builds through `_constructor` without calling __finalize__ are outside "
         "the model (observed only): dot, matmul, rolling/expanding/ewm aggregations and groupby.cumsum return a "
         "TableDataFrame without metadata, no warning, no error — tracked as known findings "
@@ -643,6 +644,18 @@ def _numeric(df):
     return [c for c in df.columns if df[c].dtype.kind in "if"]
 
 
+# DataFrame methods outside the documented list, one drawn per `pool_method` case
+METHOD_POOL = ["corr", "cov", "describe", "cumsum", "cumprod", "cummax", "cummin", "diff", "rank", "shift", "pct_change",
+               "round", "abs", "clip", "where", "mask", "map", "T", "quantile", "infer_objects", "explode",
+               "combine_first", "ffill", "bfill", "mode", "transform", "agg", "nsmallest", "truncate", "add_prefix",
+               "add_suffix", "set_flags", "squeeze", "convert_dtypes", "interpolate", "notna", "isna", "count", "nunique",
+               "sum", "mean", "median", "std", "var", "min", "max", "prod", "sem", "skew", "kurt", "idxmax", "idxmin",
+               "stack", "dropna", "drop_duplicates", "sort_values", "reset_index", "head", "tail", "copy", "eq", "ne"]
+# the methods pdtable's `_combine_tables` documents as known (frame.py, "metadata combination is safe"); every other
+# method name must be announced by the unknown-method warning when the result is made a table frame
+KNOWN_METHODS = {None, "merge", "concat", "reindex", "take", "copy", "groupby", "replace", "sort_index", "transpose",
+                 "astype", "append", "fillna", "rename", "unstack", "melt"}
+
 def _ops():
     import numpy as np
     import pandas as pd
@@ -1068,6 +1081,25 @@ def _ops():
     @op("count", False)
     def _(rng, d, mk): return [d], lambda: d.count()
 
+    @op("pool_method", False)
+    def _(rng, d, mk):
+        # one DataFrame method from a larger pool per case, called with defaults (or one drawn argument); what is not
+        # applicable raises TypeError / ValueError inside pandas and is simply a refused unsafe operation
+        cs = _numeric(d) or list(d.columns)
+        n = d[cs]
+        m = rng.choice(METHOD_POOL)
+        calls_ = {
+            "quantile": lambda: n.quantile([0.5]), "clip": lambda: n.clip(0, 2), "where": lambda: n.where(n > 0, 0),
+            "mask": lambda: n.mask(n > 0, 0), "map": lambda: n.map(lambda x: x), "T": lambda: n.T,
+            "combine_first": lambda: n.combine_first(n), "explode": lambda: d.explode(d.columns[0]),
+            "transform": lambda: n.transform(lambda x: x), "agg": lambda: n.agg(["sum"]),
+            "nsmallest": lambda: n.nsmallest(1, cs[0]), "truncate": lambda: d.truncate(0, 1),
+            "add_prefix": lambda: d.add_prefix("p_"), "add_suffix": lambda: d.add_suffix("_s"),
+            "set_flags": lambda: d.set_flags(), "squeeze": lambda: n.squeeze(), "swaplevel": None,
+        }
+        f = calls_.get(m, lambda: getattr(n, m)())
+        return [d], f
+
     @op("join", False, 2)
     def _(rng, d, mk):
         u = mk(disjoint=True)
@@ -1134,7 +1166,8 @@ STATEMENT_OPS = {
 }
 
 # row selections of the statement that pdtable refuses today (pandas validates an internal isna() frame against the
-# kept units): reported under `row_selection_refused:<op>`, run only once that key is an OPEN known finding
+# kept units): they always run and are judged like every safe operation; the failure is reported under
+# `row_selection_refused:<op>`, which is excused only while that key is an OPEN known finding (F4)
 GATED = {"dropna": "row_selection_refused:dropna", "dropna_subset": "row_selection_refused:dropna_subset"}
 ROW_SELECTION = {"dropna", "dropna_subset", "drop_duplicates", "query", "sample", "nlargest", "loc_mask", "rows_bool",
                  "rows_slice", "iloc_rows", "loc_rows", "take_rows", "drop_rows"}
@@ -1445,6 +1478,13 @@ def check_result(res, world, name, safe, sources, pre, R, exc, ws_outer, calls):
     drop00 = name.startswith("concat") and any(sum(s.shape) > 0 for s in sources)
     src_info = [(s, p) for s, p in zip(sources, pre)
                 if p is not None and not (drop00 and sum(s.shape) == 0)]
+    # --- a result made a table frame through a method pdtable does not know must carry the unknown-method warning
+    for c in calls:
+        if c["exc"] is None and c["res"] == "table" and c["method"] not in KNOWN_METHODS \
+                and "unknown_method" not in c["warns"]:
+            res.fail(f"__finalize__ method {c['method']!r} is not in pdtable's list of known methods, yet its result "
+                     "became a table frame without the unknown-method warning", c["warns"], ["unknown_method"],
+                     key="unknown_method_silent:" + str(c["method"]))
     # --- degrade path of __finalize__: plain DataFrame exactly, with the warning
     for c in calls:
         if c["exc"] is None and c["res"] != "table":
@@ -1671,6 +1711,12 @@ def long_plan(rng, index, names):
     return [(names[x], []) for x in seq]
 
 
+def clashing(rng, u):
+    """a unit that is NOT `u`: another unit, or `u` in another case / with a blank (units are compared exactly)"""
+    cands = [u + "X", u.upper(), u.capitalize(), u.swapcase(), u + " ", " " + u]
+    return rng.choice([c for c in cands if c != u])
+
+
 def make_case(seed, stream, index, ops):
     """the case as plain data: literal tables, operations by name with the seed of their argument draws,
     follow-up mutations — everything `exec_case` needs, nothing that depends on stream positions"""
@@ -1705,10 +1751,11 @@ def make_case(seed, stream, index, ops):
             k = rng.choice([2, 3])
             have_m1 = sorted(rng.sample(range(k), 2)) if k == 3 and rng.random() < 0.5 else list(range(k))
             clash_at = rng.choice(have_m1[1:]) if kind == "concat_late_clash" else None
+            m1_clash = rng.choice(["g", "KG", "Kg", "kg ", " kg"])
             for j in range(k):
                 cols = [hdr[0]] if rng.random() < 0.7 else []
                 if j in have_m1:
-                    cols.append(("m1", "f", "g" if j == clash_at else "kg"))
+                    cols.append(("m1", "f", m1_clash if j == clash_at else "kg"))
                 if rng.random() < 0.6 or not cols:
                     cols.append(("m2", "i", "N"))
                 tables.append(table_spec(rng, loc_counter, name="u%d_%d" % (i, j), cols=cols))
@@ -1722,14 +1769,14 @@ def make_case(seed, stream, index, ops):
             elif kind in ("concat_cols", "join"):
                 cols = [("p", "f", "kg"), ("q", "O", "text")]
             elif kind == "concat_clash":
-                cols = [(l, k, (u + "X") if j == 0 and u not in SPECIAL else u) for j, (l, k, u) in enumerate(hdr)]
+                cols = [(l, k, clashing(rng, u) if j == 0 and u not in SPECIAL else u) for j, (l, k, u) in enumerate(hdr)]
                 if hdr[0][2] in SPECIAL:
                     cols = list(hdr)         # no clash possible on a special unit: plain concat
             elif kind in ("merge_key", "merge_fn"):
                 cols = [hdr[0], ("r1", "f", "N")] + ([(hdr[1][0], hdr[1][1], "other")] if len(hdr) > 1 and hdr[1][2] not in SPECIAL else [])
             elif kind == "merge_clash":
                 l, k, u = hdr[0]
-                cols = [(l, k, u + "X" if u not in SPECIAL else u), ("r1", "f", "N")]
+                cols = [(l, k, clashing(rng, u) if u not in SPECIAL else u), ("r1", "f", "N")]
             else:
                 cols = None
             tables.append(table_spec(rng, loc_counter, name="u%d" % i, cols=cols, nrows=nrows))
@@ -1788,9 +1835,6 @@ def exec_case(case, ops):
                 continue
             if thunk is None:
                 res.counts.append("skip:" + name)
-                continue
-            if name in GATED and GATED[name] not in open_known_keys():
-                res.counts.append("gated:" + name)
                 continue
             res.counts.append("op:" + name)
             if stream == "chains" and any(info_of(s) is not None and
@@ -1899,6 +1943,9 @@ def run(tier, seed, model_ok, translator, search=False):
         n_long = 7 if tier == "quick" else 72
         for stream, n in (("pairs", n_pairs), ("chains", n_chains), ("long", n_long)):
             for index in range(n):
+                if stream == "pairs" and tier == "quick" and not ops[(index // N_MUT) % len(ops)][1] \
+                        and ops[(index // N_MUT) % len(ops)][0] != "pool_method" and (index % N_MUT) % 3 != seed % 3:
+                    continue        # operations outside the statement's list: a third of the mutations per quick run
                 with warnings.catch_warnings():
                     warnings.simplefilter("ignore")
                     res = run_case(seed, stream, index, ops)
@@ -1923,7 +1970,7 @@ def run(tier, seed, model_ok, translator, search=False):
     out.exhaustive = False
     # which methods pandas passes per operation: compared with the committed table, reported, never an alarm
     drift = {k: sorted(v - set(FINALIZE_TABLE.get(k, []))) for k, v in seen_methods.items()
-             if v - set(FINALIZE_TABLE.get(k, []))}
+             if k != "pool_method" and v - set(FINALIZE_TABLE.get(k, []))}
     if drift:
         out.notes.append("pandas __finalize__ methods not in the committed table (pandas changed, or a data path "
                          "not seen when the table was recorded): " + str(drift))
